@@ -5,8 +5,11 @@ import (
 	"encoding/json"
 	"fmt"
 	"os"
+	"os/exec"
 	"path/filepath"
 	"sort"
+	"strconv"
+	"strings"
 	"testing"
 	"time"
 )
@@ -40,6 +43,142 @@ type Prop struct {
 	Rule  string
 	Real  []string
 	Stubs []string
+	// Isolated: executions happen in fresh child processes, a batch of
+	// consecutive runs per child, so that a run is a pure function of (the runs
+	// before it in its batch, case, decisions) even though the code under test
+	// keeps process-global state (label index, type caches). A child that dies
+	// is a violation of class "crash". A replay file carries the batch prefix.
+	Isolated bool
+}
+
+// runSpec is one execution request.
+type runSpec struct {
+	c       CaseI
+	choices []uint32 // nil = the case's policy decides
+}
+
+type childRun struct {
+	Case    json.RawMessage `json:"case"`
+	Choices []uint32        `json:"choices"`
+	Replay  bool            `json:"replay"`
+}
+
+type childReq struct {
+	Runs        []childRun `json:"runs"`
+	KeepLogLast bool       `json:"keep_log_last"`
+}
+
+// executor runs batches of specs, in-process or in a fresh child each.
+type executor struct {
+	t   *testing.T
+	p   *Prop
+	dir string
+	n   int
+}
+
+// batch executes specs in order from a fresh state (isolated properties) and
+// returns the outcomes. If the child dies while executing spec k, the result
+// has k+1 elements, the last being a synthetic outcome of class "crash".
+func (e *executor) batch(specs []runSpec, keepLogLast bool) []*Outcome {
+	if !e.p.Isolated {
+		outs := make([]*Outcome, len(specs))
+		for i, s := range specs {
+			outs[i] = e.p.Exec(e.t, s.c, s.choices, keepLogLast && i == len(specs)-1)
+		}
+		return outs
+	}
+	e.n++
+	req := childReq{KeepLogLast: keepLogLast}
+	for _, s := range specs {
+		raw, _ := json.Marshal(s.c)
+		req.Runs = append(req.Runs, childRun{Case: raw, Choices: s.choices, Replay: s.choices != nil})
+	}
+	in := filepath.Join(e.dir, fmt.Sprintf("child.%d.%d.json", os.Getpid(), e.n%4))
+	data, _ := json.Marshal(req)
+	if err := os.WriteFile(in, data, 0o644); err != nil {
+		trouble("child request: %v", err)
+	}
+	os.Remove(in + ".out")
+	cmd := exec.Command(os.Args[0], "-test.run", "^TestWorker$", "-test.timeout", "0", "-test.count", "1")
+	cmd.Env = append(os.Environ(), "CUESIM_CHILD="+in)
+	var stderr strings.Builder
+	cmd.Stderr = &stderr
+	cmd.Stdout = &stderr
+	err := cmd.Run()
+	var outs []*Outcome
+	if outData, rerr := os.ReadFile(in + ".out"); rerr == nil {
+		for _, line := range strings.Split(string(outData), "\n") {
+			if strings.TrimSpace(line) == "" {
+				continue
+			}
+			var out Outcome
+			if json.Unmarshal([]byte(line), &out) != nil {
+				break
+			}
+			outs = append(outs, &out)
+		}
+	}
+	if len(outs) == len(specs) {
+		return outs
+	}
+	msg := stderr.String()
+	if strings.Contains(msg, "HARNESS-TROUBLE") {
+		fmt.Fprint(os.Stderr, msg)
+		os.Exit(2)
+	}
+	if err == nil {
+		trouble("child produced %d of %d outcomes and did not fail:\n%s", len(outs), len(specs), msg)
+	}
+	if len(msg) > 8000 {
+		msg = msg[:8000]
+	}
+	key := "unknown"
+	for _, l := range strings.Split(msg, "\n") {
+		if strings.HasPrefix(l, "fatal error:") || strings.HasPrefix(l, "panic:") {
+			key = strings.TrimSpace(l)
+			break
+		}
+	}
+	return append(outs, &Outcome{Res: Result{Violation: &Violation{Class: "crash", Msg: msg}}, Key: "crash: " + key, NonTrivial: true})
+}
+
+func childMain(t *testing.T, p *Prop, in string) {
+	data, err := os.ReadFile(in)
+	if err != nil {
+		trouble("child: %v", err)
+	}
+	var req childReq
+	if err := json.Unmarshal(data, &req); err != nil {
+		trouble("child: %v", err)
+	}
+	f, err := os.Create(in + ".out")
+	if err != nil {
+		trouble("child: %v", err)
+	}
+	defer f.Close()
+	for i, r := range req.Runs {
+		c := p.New()
+		if err := json.Unmarshal(r.Case, c); err != nil {
+			trouble("child: case: %v", err)
+		}
+		choices := r.Choices
+		if r.Replay && choices == nil {
+			choices = []uint32{}
+		}
+		if !r.Replay {
+			choices = nil
+		}
+		out := p.Exec(t, c, choices, req.KeepLogLast && i == len(req.Runs)-1)
+		if out.Res.Choices == nil {
+			out.Res.Choices = []uint32{}
+		}
+		od, err := json.Marshal(out)
+		if err != nil {
+			trouble("child: marshal outcome: %v", err)
+		}
+		f.Write(append(od, '\n'))
+		f.Sync()
+	}
 }
 
 // KnownFinding is an entry of /verif/known-findings.json.
@@ -66,6 +205,13 @@ type Job struct {
 	MaxViol    int            `json:"max_viol"`
 	Known      []KnownFinding `json:"known,omitempty"`
 	ShrinkSecs int            `json:"shrink_secs"`
+	Batch      int            `json:"batch,omitempty"` // isolated properties: runs per child process
+}
+
+// PrefixRun is a run that precedes the failing one in the same process.
+type PrefixRun struct {
+	Case    json.RawMessage `json:"case"`
+	Choices []uint32        `json:"choices"`
 }
 
 // Replay is the replay file: a pure function of it and the tree decides the run.
@@ -75,6 +221,7 @@ type Replay struct {
 	Seed      uint64          `json:"seed"`
 	RunIndex  int             `json:"run_index"`
 	RunSeed   uint64          `json:"run_seed"`
+	Prefix    []PrefixRun     `json:"prefix,omitempty"` // isolated properties: runs executed before, in the same fresh process
 	Case      json.RawMessage `json:"case"`
 	Choices   []uint32        `json:"choices"`
 	Violation *Violation      `json:"violation"`
@@ -82,8 +229,8 @@ type Replay struct {
 	LogHash   uint64          `json:"log_hash"`
 	Shrunk    string          `json:"shrunk,omitempty"`
 	// PolicyDriven: Choices is not used, the case's scheduler policy and seed decide (crash replays).
-	PolicyDriven bool `json:"policy_driven,omitempty"`
-	Log       []string        `json:"log,omitempty"`
+	PolicyDriven bool     `json:"policy_driven,omitempty"`
+	Log          []string `json:"log,omitempty"`
 }
 
 // WorkerResult is the worker → driver message.
@@ -114,6 +261,7 @@ type WorkerResult struct {
 	Rule        string         `json:"rule,omitempty"`
 	Real        []string       `json:"real,omitempty"`
 	Stubs       []string       `json:"stubs,omitempty"`
+	Children    int            `json:"child_processes,omitempty"`
 }
 
 func addMap(dst, src map[string]int) {
@@ -124,6 +272,11 @@ func addMap(dst, src map[string]int) {
 
 // WorkerMain is the body of each property's TestWorker.
 func WorkerMain(t *testing.T, p *Prop) {
+	if in := os.Getenv("CUESIM_CHILD"); in != "" {
+		StartWatchdog(90 * time.Second)
+		childMain(t, p, in)
+		return
+	}
 	jobPath := os.Getenv("CUESIM_JOB")
 	if jobPath == "" {
 		t.Skip("CUESIM_JOB not set: this test binary is a simulation worker driven by /verif/check")
@@ -136,16 +289,23 @@ func WorkerMain(t *testing.T, p *Prop) {
 	if err := json.Unmarshal(data, &job); err != nil {
 		trouble("parse job: %v", err)
 	}
-	StartWatchdog(90 * time.Second)
+	if !p.Isolated {
+		StartWatchdog(90 * time.Second)
+	}
+	e := &executor{t: t, p: p, dir: job.OutDir}
 	switch job.Mode {
 	case "explore", "hashes":
-		explore(t, p, &job)
+		explore(e, &job)
 	case "replay":
-		replay(t, p, &job)
+		replay(e, &job)
 	default:
 		trouble("unknown mode %q", job.Mode)
 	}
 }
+
+// Trouble reports a defect of the harness itself (never a violation) and
+// ends the worker with exit status 2.
+func Trouble(format string, args ...any) { trouble(format, args...) }
 
 func trouble(format string, args ...any) {
 	fmt.Fprintf(os.Stderr, "HARNESS-TROUBLE: "+format+"\n", args...)
@@ -162,7 +322,8 @@ func writeJSON(path string, v any) {
 	}
 }
 
-func explore(t *testing.T, p *Prop, job *Job) {
+func explore(e *executor, job *Job) {
+	p := e.p
 	start := time.Now()
 	res := &WorkerResult{
 		Worker: job.Worker, Faults: map[string]int{}, Counters: map[string]int{}, Probes: map[string]int{},
@@ -178,80 +339,103 @@ func explore(t *testing.T, p *Prop, job *Job) {
 	var hashLines []byte
 	cur := filepath.Join(job.OutDir, fmt.Sprintf("current.%d", job.Worker))
 	curF, _ := os.Create(cur)
+	bsize := 1
+	if p.Isolated {
+		bsize = max(job.Batch, 1)
+		if v, err := strconv.Atoi(os.Getenv("CUESIM_BATCH")); err == nil && v > 0 {
+			bsize = v
+		}
+	}
+	var queue []int
 	for i := job.Worker; i < job.Runs; i += job.Workers {
+		queue = append(queue, i)
+	}
+	for len(queue) > 0 && len(res.Violations) < job.MaxViol {
 		if job.Deadline > 0 && time.Now().Unix() > job.Deadline {
 			res.TimedOut = true
 			break
 		}
-		runSeed := Mix(job.Seed, uint64(i))
+		n := min(bsize, len(queue))
+		idxs := queue[:n]
+		queue = queue[n:]
+		specs := make([]runSpec, n)
+		for k, i := range idxs {
+			specs[k] = runSpec{c: p.Gen(Mix(job.Seed, uint64(i)), job.Tier, i)}
+		}
 		if curF != nil {
 			var b [8]byte
-			binary.LittleEndian.PutUint64(b[:], uint64(i))
+			binary.LittleEndian.PutUint64(b[:], uint64(idxs[0]))
 			curF.WriteAt(b[:], 0)
 		}
-		c := p.Gen(runSeed, job.Tier, i)
 		if os.Getenv("CUESIM_DUMPCASE") != "" {
-			writeJSON(filepath.Join(job.OutDir, "case.json"), c)
+			writeJSON(filepath.Join(job.OutDir, "case.json"), specs[0].c)
 		}
-		out := p.Exec(t, c, nil, false)
-		res.Runs++
-		res.Steps += int64(out.Res.Steps)
-		res.SimTimeNs += int64(out.Res.SimTime)
-		res.Switches += int64(out.Res.Switches)
-		if out.Res.MaxParked > res.MaxParked {
-			res.MaxParked = out.Res.MaxParked
-		}
-		if out.Res.Leaked {
-			res.Leaked++
-		}
-		addMap(res.Faults, out.Faults)
-		addMap(res.Counters, out.Counters)
-		addMap(res.Probes, out.Res.Probes)
-		addMap(res.SiteHits, out.Res.SiteHits)
-		addMap(res.SiteParks, out.Res.SiteParks)
-		res.Policies[c.SchedCfg().Policy]++
-		if out.NonTrivial {
-			if _, dup := hashes[out.Res.Hash]; !dup {
+		outs := e.batch(specs, false)
+		for k, out := range outs {
+			i, c := idxs[k], specs[k].c
+			runSeed := Mix(job.Seed, uint64(i))
+			res.Runs++
+			res.Steps += int64(out.Res.Steps)
+			res.SimTimeNs += int64(out.Res.SimTime)
+			res.Switches += int64(out.Res.Switches)
+			if out.Res.MaxParked > res.MaxParked {
+				res.MaxParked = out.Res.MaxParked
+			}
+			if out.Res.Leaked {
+				res.Leaked++
+			}
+			addMap(res.Faults, out.Faults)
+			addMap(res.Counters, out.Counters)
+			addMap(res.Probes, out.Res.Probes)
+			addMap(res.SiteHits, out.Res.SiteHits)
+			addMap(res.SiteParks, out.Res.SiteParks)
+			res.Policies[c.SchedCfg().Policy]++
+			if out.NonTrivial {
 				hashes[out.Res.Hash] = struct{}{}
 			}
-		}
-		if job.Mode == "hashes" {
-			cls := ""
-			if out.Res.Violation != nil {
-				cls = out.Res.Violation.Class
+			if job.Mode == "hashes" {
+				cls := ""
+				if out.Res.Violation != nil {
+					cls = out.Res.Violation.Class
+				}
+				hashLines = fmt.Appendf(hashLines, "%d %016x %d %s %s\n", i, out.Res.Hash, out.Res.Steps, cls, out.Final)
 			}
-			hashLines = fmt.Appendf(hashLines, "%d %016x %d %s %s\n", i, out.Res.Hash, out.Res.Steps, cls, out.Final)
-		}
-		if len(res.Samples) < 3 && out.NonTrivial && res.Runs%7 == 1 {
-			// re-execute with the log kept, so that the sample shows the run
-			o2 := p.Exec(t, c, out.Res.Choices, true)
-			log := o2.Res.Log
-			if len(log) > 60 {
-				log = append(append([]string{}, log[:40]...), fmt.Sprintf("… %d more steps …", len(log)-40))
+			v := out.Res.Violation
+			if v == nil && len(res.Samples) < 3 && out.NonTrivial && res.Runs%7 == 1 && (!p.Isolated || k == 0) {
+				// re-execute with the log kept, so that the sample shows the run
+				o2 := e.batch([]runSpec{{c, out.Res.Choices}}, true)[0]
+				log := o2.Res.Log
+				if len(log) > 60 {
+					log = append(append([]string{}, log[:40]...), fmt.Sprintf("… %d more steps …", len(log)-40))
+				}
+				res.Samples = append(res.Samples, map[string]any{
+					"run_index": i, "run_seed": runSeed, "case": c.Summary(), "steps": out.Res.Steps,
+					"decisions": len(out.Res.Choices), "log_hash": fmt.Sprintf("%016x", out.Res.Hash), "faults_fired": out.Faults, "event_log": log,
+				})
 			}
-			res.Samples = append(res.Samples, map[string]any{
-				"run_index": i, "run_seed": runSeed, "case": c.Summary(), "steps": out.Res.Steps,
-				"choices": len(out.Res.Choices), "log_hash": fmt.Sprintf("%016x", out.Res.Hash), "faults_fired": out.Faults, "event_log": log,
-			})
-		}
-		if v := out.Res.Violation; v != nil && job.Mode == "explore" {
+			if v == nil || job.Mode != "explore" {
+				continue
+			}
+			// a violation: whatever follows in this batch ran in a process whose state may be
+			// damaged; those runs are repeated in a later batch
+			queue = append(append([]int{}, idxs[k+1:]...), queue...)
 			if known[out.Key] {
 				res.KnownHits[out.Key]++
-				continue
+				break
 			}
-			// reproducibility first: a failure that does not replay is harness trouble, not a violation
-			o2 := p.Exec(t, c, out.Res.Choices, false)
-			if o2.Res.Violation == nil || o2.Res.Violation.Class != v.Class {
-				res.Trouble = append(res.Trouble, fmt.Sprintf("run %d (seed %d): violation %q did not reproduce on immediate re-execution (got %v): suspected uncontrolled nondeterminism", i, runSeed, v.Class, o2.Res.Violation))
-				continue
+			var prefix []runSpec
+			for q := 0; q < k; q++ {
+				prefix = append(prefix, runSpec{specs[q].c, nonNil(outs[q].Res.Choices)})
 			}
-			rp := shrink(t, p, job, i, runSeed, c, out)
+			rp, tr := minimise(e, job, i, runSeed, prefix, c, out)
+			if tr != "" {
+				res.Trouble = append(res.Trouble, tr)
+				break
+			}
 			path := filepath.Join(job.OutDir, fmt.Sprintf("replay-%s-%d.json", p.ID, i))
 			writeJSON(path, rp)
 			res.Violations = append(res.Violations, path)
-			if len(res.Violations) >= job.MaxViol {
-				break
-			}
+			break
 		}
 	}
 	if curF != nil {
@@ -274,11 +458,20 @@ func explore(t *testing.T, p *Prop, job *Job) {
 	}
 	res.NonTrivial = len(hashes)
 	res.Rule, res.Real, res.Stubs = p.Rule, p.Real, p.Stubs
+	res.Children = e.n
 	res.WallS = time.Since(start).Seconds()
 	writeJSON(filepath.Join(job.OutDir, fmt.Sprintf("result.%d.json", job.Worker)), res)
 }
 
-func replay(t *testing.T, p *Prop, job *Job) {
+func nonNil(ch []uint32) []uint32 {
+	if ch == nil {
+		return []uint32{}
+	}
+	return ch
+}
+
+func replay(e *executor, job *Job) {
+	p := e.p
 	data, err := os.ReadFile(job.ReplayFile)
 	if err != nil {
 		trouble("read replay: %v", err)
@@ -287,18 +480,30 @@ func replay(t *testing.T, p *Prop, job *Job) {
 	if err := json.Unmarshal(data, &rp); err != nil {
 		trouble("parse replay: %v", err)
 	}
+	var specs []runSpec
+	for _, pr := range rp.Prefix {
+		c := p.New()
+		if err := json.Unmarshal(pr.Case, c); err != nil {
+			trouble("parse prefix case: %v", err)
+		}
+		specs = append(specs, runSpec{c, nonNil(pr.Choices)})
+	}
 	c := p.New()
 	if err := json.Unmarshal(rp.Case, c); err != nil {
 		trouble("parse case: %v", err)
 	}
-	if rp.Choices == nil {
-		rp.Choices = []uint32{}
-	}
+	last := runSpec{c, nonNil(rp.Choices)}
 	if rp.PolicyDriven {
-		rp.Choices = nil
+		last.choices = nil
 	}
-	out := p.Exec(t, c, rp.Choices, true)
+	specs = append(specs, last)
+	outs := e.batch(specs, true)
+	out := outs[len(outs)-1]
 	res := &WorkerResult{}
+	if len(outs) < len(specs) {
+		fmt.Printf("replay: the process died in prefix run %d\n", len(outs)-1)
+		res.Trouble = append(res.Trouble, "died in prefix")
+	}
 	if out.Res.Violation != nil {
 		res.ReplayClass = out.Res.Violation.Class
 		res.ReplayKey = out.Key
@@ -307,7 +512,7 @@ func replay(t *testing.T, p *Prop, job *Job) {
 	} else {
 		fmt.Printf("replay: no violation\n")
 	}
-	if out.Res.Hash != rp.LogHash {
+	if out.Res.Violation != nil && out.Res.Violation.Class != "crash" && out.Res.Hash != rp.LogHash {
 		fmt.Printf("replay: log hash %016x differs from recorded %016x\n", out.Res.Hash, rp.LogHash)
 		if res.ReplayOK {
 			res.Trouble = append(res.Trouble, "log hash differs")
@@ -319,21 +524,52 @@ func replay(t *testing.T, p *Prop, job *Job) {
 	writeJSON(filepath.Join(job.OutDir, "result.0.json"), res)
 }
 
-// shrink minimises (case, choices) while the same violation class persists.
-func shrink(t *testing.T, p *Prop, job *Job, idx int, runSeed uint64, c CaseI, out *Outcome) *Replay {
+// minimise confirms that the violation is a pure function of (prefix, case,
+// decisions) and then shrinks all three while the same violation class persists.
+func minimise(e *executor, job *Job, idx int, runSeed uint64, prefix []runSpec, c CaseI, out *Outcome) (*Replay, string) {
 	class := out.Res.Violation.Class
+	crash := class == "crash"
 	deadline := time.Now().Add(time.Duration(max(job.ShrinkSecs, 5)) * time.Second)
-	best, bestOut := c, out
-	choices := append([]uint32{}, out.Res.Choices...)
 	tries := 0
-	fails := func(cc CaseI, ch []uint32) *Outcome {
+	run := func(pre []runSpec, cc CaseI, ch []uint32, keepLog bool) *Outcome {
 		tries++
-		o := p.Exec(t, cc, ch, false)
+		outs := e.batch(append(append([]runSpec{}, pre...), runSpec{cc, ch}), keepLog)
+		if len(outs) < len(pre)+1 {
+			return &Outcome{} // died inside the prefix: not this violation
+		}
+		return outs[len(pre)]
+	}
+	fails := func(pre []runSpec, cc CaseI, ch []uint32) *Outcome {
+		o := run(pre, cc, ch, false)
 		if o.Res.Violation != nil && o.Res.Violation.Class == class {
 			return o
 		}
 		return nil
 	}
+	var choices []uint32
+	if !crash {
+		choices = nonNil(append([]uint32{}, out.Res.Choices...))
+	}
+	// reproducibility first: a failure that does not replay is harness trouble, not a violation
+	if o := fails(prefix, c, choices); o == nil {
+		return nil, fmt.Sprintf("run %d (seed %d): violation %q did not reproduce when re-executed from the same state: suspected uncontrolled nondeterminism", idx, runSeed, class)
+	}
+	// the prefix: first try without, then drop elements one at a time
+	if len(prefix) > 0 {
+		if o := fails(nil, c, choices); o != nil {
+			prefix = nil
+		} else {
+			for q := 0; q < len(prefix) && time.Now().Before(deadline); {
+				cand := append(append([]runSpec{}, prefix[:q]...), prefix[q+1:]...)
+				if o := fails(cand, c, choices); o != nil {
+					prefix = cand
+				} else {
+					q++
+				}
+			}
+		}
+	}
+	best := c
 	trim := func(ch []uint32) []uint32 {
 		n := len(ch)
 		for n > 0 && ch[n-1] == 0 {
@@ -351,17 +587,24 @@ func shrink(t *testing.T, p *Prop, job *Job, idx int, runSeed uint64, c CaseI, o
 				if time.Now().After(deadline) {
 					break
 				}
-				if o := fails(cand, choices); o != nil {
-					best, bestOut, again, progress = cand, o, true, true
-					choices = append([]uint32{}, o.Res.Choices...)
+				if o := fails(prefix, cand, choices); o != nil {
+					best, again, progress = cand, true, true
+					if !crash {
+						choices = nonNil(append([]uint32{}, o.Res.Choices...))
+					}
 					break
 				}
-				if o := fails(cand, []uint32{}); o != nil {
-					best, bestOut, again, progress = cand, o, true, true
-					choices = []uint32{}
-					break
+				if !crash {
+					if o := fails(prefix, cand, []uint32{}); o != nil {
+						best, again, progress = cand, true, true
+						choices = []uint32{}
+						break
+					}
 				}
 			}
+		}
+		if crash {
+			break
 		}
 		// decision vector: zero blocks
 		choices = trim(choices)
@@ -381,8 +624,8 @@ func shrink(t *testing.T, p *Prop, job *Job, idx int, runSeed uint64, c CaseI, o
 				for i := lo; i < hi; i++ {
 					cand[i] = 0
 				}
-				if o := fails(best, cand); o != nil {
-					bestOut, progress = o, true
+				if o := fails(prefix, best, cand); o != nil {
+					progress = true
 					choices = trim(append([]uint32{}, o.Res.Choices...))
 					if lo >= len(choices) {
 						break
@@ -395,22 +638,24 @@ func shrink(t *testing.T, p *Prop, job *Job, idx int, runSeed uint64, c CaseI, o
 		}
 	}
 	// final run with the log kept
-	final := p.Exec(t, best, choices, true)
+	final := run(prefix, best, choices, true)
 	if final.Res.Violation == nil || final.Res.Violation.Class != class {
-		// should not happen (pure function); fall back to the unshrunk tuple
-		best, choices = c, out.Res.Choices
-		final = p.Exec(t, best, choices, true)
+		return nil, fmt.Sprintf("run %d (seed %d): minimised tuple does not reproduce violation %q", idx, runSeed, class)
 	}
-	_ = bestOut
 	raw, _ := json.Marshal(best)
 	log := final.Res.Log
 	if len(log) > 400 {
 		log = log[len(log)-400:]
 	}
-	return &Replay{
-		Property: p.ID, Tier: job.Tier, Seed: job.Seed, RunIndex: idx, RunSeed: runSeed,
-		Case: raw, Choices: choices, Violation: final.Res.Violation, Key: final.Key, LogHash: final.Res.Hash,
-		Shrunk: fmt.Sprintf("%d re-executions; steps %d → %d; decisions %d → %d", tries, out.Res.Steps, final.Res.Steps, len(out.Res.Choices), len(choices)),
+	rp := &Replay{
+		Property: e.p.ID, Tier: job.Tier, Seed: job.Seed, RunIndex: idx, RunSeed: runSeed,
+		Case: raw, Choices: nonNil(choices), PolicyDriven: crash, Violation: final.Res.Violation, Key: final.Key, LogHash: final.Res.Hash,
+		Shrunk: fmt.Sprintf("%d re-executions; steps %d → %d; decisions %d → %d; prefix runs %d", tries, out.Res.Steps, final.Res.Steps, len(out.Res.Choices), len(choices), len(prefix)),
 		Log:    log,
 	}
+	for _, pr := range prefix {
+		raw, _ := json.Marshal(pr.c)
+		rp.Prefix = append(rp.Prefix, PrefixRun{Case: raw, Choices: nonNil(pr.choices)})
+	}
+	return rp, ""
 }
